@@ -74,6 +74,11 @@ import (
 // up to k-1 approvals and TIME OUT before the connection is removed; the writes re-sent with the same counters on
 // the second connection must not be applied before all k callbacks approved them (judged at the return of every
 // single ApproveOrDenyWrite call), a denial yields exactly one error result and unchanged data.
+//
+// co-pending / co-pending-race (c10CoPending, c10_copending.go): the one binding of a local server feature is handed from
+// sender to sender, so that writes of several entities of one peer and of several peers wait for approval on the SAME
+// feature, partly approved, when one of the senders is torn down; all remaining verdicts are given afterwards and every
+// write is judged by its outcome at the return of every call.
 
 const c10Timeout = 50 * time.Millisecond
 const c10Horizon = 5 * c10Timeout
@@ -117,7 +122,14 @@ func init() {
 		"One quarter of the cases (stale-approvals, second PRNG; non-trivial if every approval of the first connection returned before the time-out result of its write was on the tap): one LoadControl server feature with k in {2,3} harness-driven callbacks, 1-2 writes of the first connection collect j<k approvals (mostly k-1) and time out (15|25|40 ms), " +
 		"the connection is removed and set up again, the writes are re-sent with the same counters under a 30 min timeout and decided one ApproveOrDenyWrite call at a time in a drawn order (all approve, or one denial after at least one approval; two writes interleaved in half of the cases): " +
 		"after every call a write with fewer than k approvals and no denial has no result and unchanged data, a denied one exactly one error result and unchanged data, a unanimously approved one is applied and acknowledged iff requested; no counted approval for the removed SKI is left after the removal returned. " +
-		"Of the remaining cases one quarter (approve-at-removal, always non-trivial): the application's approval of a pending write is held at the hook ApproveOrDenyWrite.afterLookup while the connection is removed: the write must not be carried out (no data change event, no notification, nothing on the removed connection)."
+		"Of the remaining cases one quarter (approve-at-removal, always non-trivial): the application's approval of a pending write is held at the hook ApproveOrDenyWrite.afterLookup while the connection is removed: the write must not be carried out (no data change event, no notification, nothing on the removed connection). " +
+		"co-pending parts (c10_copending.go): case = 2-3 identically numbered peers and ONE local server feature with k in {1,2,3} harness-driven approval callbacks (timeout 30 min: no timer in the case); 2-4 senders (entity of a peer; every second one the previous sender's peer again, mostly another entity) " +
+		"take the feature's one binding in turn (bind, write an element of its own, give the binding up), so that writes of several entities of one peer and of several peers are pending on the same feature; each write gets 0..k verdicts before the teardown (mostly some but not all approvals; right after the write or after the last write), " +
+		"teardown = disconnect (1/3) | entity removal (2/3; partial, partial without device part, or unfiltered notify; a quarter with a second entity in the datagram) of a sender (5/6) or of somebody else, then ALL remaining verdicts one call at a time in a drawn interleaving (a quarter of the writes with a denial at a drawn position): " +
+		"judged at the return of the teardown and of every call: an undecided write of a removed sender never gets a result nor changes data; every other write has no result below k approvals (those received before the teardown count), one error result after a denial, is written and acknowledged iff requested at the k-th approval; " +
+		"pending approvals / approval tallies per connection (VerifApprovalState) = undecided writes of existing senders / those of them with at least one approval; the binding is there iff its holder exists; a further write of the holder (or of a sender that is granted the freed binding) is carried out; nothing is written to a removed connection. " +
+		"Half of the cases: all peers count from the same start (the first writes of all peers carry the same counter). A third of the cases (all on the race binary): the next 1-2 verdicts for writes of staying senders run during the teardown, half of them held at ApproveOrDenyWrite.afterLookup until it returned; half of those with the holder on another connection also process the holder's further write during the teardown. " +
+		"non-trivial if at the teardown at least one undecided write is removed and at least one undecided write of another sender stays on the same feature; distinct = distinct (kind, form, k, #peers, per write: relation to the victim (victim | other entity of its peer | same numbers on another peer | other) and #verdicts before the teardown, same counters, overlap)."
 	assume := []string{
 		"absence of datagrams on the removed connection is observed until all pending approval timers of the other peers have fired, the process is back at its baseline goroutine count and at least 5 x the approval timeout (250 ms) has passed since the removal call returned; the verdict is on the tap content (logical sequence numbers), the clock only bounds the observation",
 		"pending approvals of surviving peers are judged by their outcome (every such write receives exactly one result, the timeout error), because their timers legitimately fire during the case; state read immediately after the teardown is only judged where timers cannot change the verdict",
@@ -148,6 +160,8 @@ func init() {
 			{Name: "reconnect", Cases: func(t rig.Tier) int { return map[rig.Tier]int{rig.Quick: 192, rig.Thorough: 2400}[t] }, Run: c10Reconnect, Procs: 2, Workers: 32, Quiet: 90 * time.Second},
 			{Name: "late-verdict", Cases: func(t rig.Tier) int { return map[rig.Tier]int{rig.Quick: 48, rig.Thorough: 600}[t] }, Run: func(c *rig.Ctx) { xLateVerdict(c, c.Rand, "late-verdict") }, Procs: 2, Quiet: 90 * time.Second},
 			{Name: "reconnect-race", Race: true, Cases: func(t rig.Tier) int { return map[rig.Tier]int{rig.Quick: 48, rig.Thorough: 480}[t] }, Run: c10Reconnect, Procs: 4, Workers: 16, Quiet: 120 * time.Second},
+			{Name: "co-pending", Cases: func(t rig.Tier) int { return map[rig.Tier]int{rig.Quick: 400, rig.Thorough: 6000}[t] }, Run: c10CoPending, Procs: 2, Workers: 16, Quiet: 90 * time.Second},
+			{Name: "co-pending-race", Race: true, Cases: func(t rig.Tier) int { return map[rig.Tier]int{rig.Quick: 48, rig.Thorough: 600}[t] }, Run: c10CoPending, Procs: 4, Workers: 8, Quiet: 120 * time.Second},
 		},
 	})
 }
